@@ -854,6 +854,43 @@ class Builtins:
         (v,) = self.args(n)
         return SV(T.BOOL, z3.And(v.t > 0, v.t < e.st.alloc))
 
+    def bi_haskey(self, n, line):
+        """haskey(d, k): key k is present in dict d"""
+        from vlib.pyvc.engine import SV
+        e = self.e
+        d, k = self.args(n)
+        kty = d.ty.args[0]
+        return SV(T.BOOL, z3.Select(e.dict_has(d.t, kty), e.coerce(k, kty).t))
+
+    def _quant_ref(self, n, forall):
+        """forall_ref(lambda x: P) / exists_ref(...): x ranges over all references (non-null)"""
+        from vlib.pyvc.engine import SV, Unsupported
+        e = self.e
+        self._spec_only("forall_ref")
+        lam = n.args[-1]
+        cls = n.args[0].value if len(n.args) == 2 else None
+        v = z3.Int(f"{lam.args.args[0].arg}!r{next(_c)}")
+        saved = e.bound
+        e.bound = dict(saved)
+        e.bound[lam.args.args[0].arg] = SV(Ty("ref", cls=cls) if cls else T.ANY, v)
+        e._unfolding += 1
+        e.binders.append(v)
+        try:
+            body = e.truthy(e.ev(lam.body))
+        finally:
+            e.binders.pop()
+            e._unfolding -= 1
+            e.bound = saved
+        if forall:
+            return SV(T.BOOL, z3.ForAll([v], z3.Implies(v > 0, body)))
+        return SV(T.BOOL, z3.Exists([v], z3.And(v > 0, body)))
+
+    def bi_forall_ref(self, n, line):
+        return self._quant_ref(n, True)
+
+    def bi_exists_ref(self, n, line):
+        return self._quant_ref(n, False)
+
     def bi_typeof(self, n, line):
         from vlib.pyvc.engine import SV
         e = self.e
@@ -1002,6 +1039,29 @@ class Builtins:
         e.wf_ref(v)
         dflt = args[1] if len(args) > 1 else lift(None)
         return e.merge_if(has, v, dflt)
+
+    def m_dict_values(self, base, args, kwargs, n, line):
+        """d.values(): a list holding exactly the values of the dict, one per key, in some fixed order"""
+        from vlib.pyvc.engine import SV
+        e = self.e
+        kty, vty = base.ty.args
+        ln = z3.Int(f"nvals!{next(_c)}")
+        keyat = z3.Function(f"keyat!{next(_c)}", I, T.sort_of(kty))
+        idxof = z3.Function(f"idxof!{next(_c)}", T.sort_of(kty), I)
+        has = e.dict_has(base.t, kty)
+        val = e.dict_val(base.t, kty, vty)
+        k = z3.Int("k!dv")
+        x = z3.Const("x!dv", T.sort_of(kty))
+        arr = z3.Const(f"vals!{next(_c)}", z3.ArraySort(I, T.sort_of(vty)))
+        e.assume(ln >= 0)
+        e.assume(z3.ForAll([k], z3.Implies(z3.And(0 <= k, k < ln), z3.And(z3.Select(has, keyat(k)), idxof(keyat(k)) == k,
+                                                                      z3.Select(arr, k) == z3.Select(val, keyat(k)))),
+                           patterns=[z3.Select(arr, k)]))
+        e.assume(z3.ForAll([x], z3.Implies(z3.Select(has, x), z3.And(0 <= idxof(x), idxof(x) < ln, keyat(idxof(x)) == x)),
+                           patterns=[idxof(x)]))
+        out = e.new_list(vty, ln, arr)
+        out.view = ("values", keyat, idxof)
+        return out
 
     def m_dict_keys(self, base, args, kwargs, n, line):
         from vlib.pyvc.engine import SV
